@@ -36,13 +36,15 @@ theorem queued_no_effect_eq (s : Sys) (mode : Mode) (c : Nat) (nameB : Bytes) (a
     (hname : commandName nameB = some n) (hus : n.startsWith "_" = false)
     (hfind : SigTable.find n = some sig) (harity : sig.checkArity args.length = true)
     (hnq : sig.name ∉ SigTable.notQueued)
+    (hnm : sig.name ∉ SigTable.notInMulti)
     (htx : (s.conn c).tx = some q) :
     processCommand mode c (nameB :: args) s = (do
       let now ← nextClock
       modify fun s => { s with srv := { s.srv with time := now } }
       modifyConn c fun x => { x with tx := x.tx.map (· ++ [(sig.name, args)]) }
       emit c .queued : M Unit) s :=
-  processCommand_queued mode c nameB args hclosed hname hus hfind harity (by simpa using hnq) htx
+  processCommand_queued mode c nameB args hclosed hname hus hfind harity (by simpa using hnq)
+    (by simpa using hnm) htx
 
 theorem queued_no_effect (s : Sys) (mode : Mode) (c : Nat) (nameB : Bytes) (args : List Bytes)
     (n : String) (sig : Sig) (q : List (String × List Bytes))
@@ -50,6 +52,7 @@ theorem queued_no_effect (s : Sys) (mode : Mode) (c : Nat) (nameB : Bytes) (args
     (hname : commandName nameB = some n) (hus : n.startsWith "_" = false)
     (hfind : SigTable.find n = some sig) (harity : sig.checkArity args.length = true)
     (hnq : sig.name ∉ SigTable.notQueued)
+    (hnm : sig.name ∉ SigTable.notInMulti)
     (htx : (s.conn c).tx = some q) :
     let s' := (processCommand mode c (nameB :: args) s).2
     s'.out = (if (s.conn c).closed then s.out else (c, Reply.queued) :: s.out) ∧
@@ -58,7 +61,8 @@ theorem queued_no_effect (s : Sys) (mode : Mode) (c : Nat) (nameB : Bytes) (args
   intro s'
   have hs' : s' = (s.refresh.updConn c fun x => { x with tx := x.tx.map (· ++ [(sig.name, args)]) }).emitS c .queued := by
     show (processCommand mode c (nameB :: args) s).2 = _
-    rw [processCommand_queued_state mode c nameB args hclosed hname hus hfind harity (by simpa using hnq) htx]
+    rw [processCommand_queued_state mode c nameB args hclosed hname hus hfind harity (by simpa using hnq)
+      (by simpa using hnm) htx]
   have hc : s.refresh.HasConn c := (Sys.refresh_hasConn s c).2 (Sys.hasConn_of_tx (by rw [htx]; rfl))
   refine ⟨?_, ?_, ?_, ?_, ?_⟩
   · rw [hs', Sys.emitS_out, Sys.updConn_out, Sys.refresh_out,
@@ -74,9 +78,69 @@ theorem queued_no_effect (s : Sys) (mode : Mode) (c : Nat) (nameB : Bytes) (args
 
 example : ∃ (s : Sys) (sig : Sig), s.srv.closedSockets = [] ∧ commandName [71, 69, 84] = some "get" ∧
     ("get".startsWith "_") = false ∧ SigTable.find "get" = some sig ∧ sig.checkArity 1 = true ∧
-    sig.name ∉ SigTable.notQueued ∧ (s.conn 7).tx = some [] :=
+    sig.name ∉ SigTable.notQueued ∧ sig.name ∉ SigTable.notInMulti ∧ (s.conn 7).tx = some [] :=
   ⟨{ srv := { conns := [{ id := 7, tx := some [] }] } }, _, rfl, by simp [commandName, bytesStr, lowerByte],
-    by simp, rfl, by decide, by decide, rfl⟩
+    by simp, rfl, by decide, by decide, by decide, rfl⟩
+
+/-! ## 2b. (P)SUBSCRIBE / (P)UNSUBSCRIBE inside MULTI are refused, not queued -/
+
+/-- the whole event is: clock refresh, `txFailed := true`, the error reply; nothing is queued -/
+theorem refused_in_multi_eq (s : Sys) (mode : Mode) (c : Nat) (nameB : Bytes) (args : List Bytes)
+    (n : String) (sig : Sig) (q : List (String × List Bytes))
+    (hclosed : s.srv.closedSockets = [])
+    (hname : commandName nameB = some n) (hus : n.startsWith "_" = false)
+    (hfind : SigTable.find n = some sig) (harity : sig.checkArity args.length = true)
+    (hnq : sig.name ∉ SigTable.notQueued)
+    (hnm : sig.name ∈ SigTable.notInMulti)
+    (htx : (s.conn c).tx = some q) :
+    processCommand mode c (nameB :: args) s = (do
+      let now ← nextClock
+      modify fun s => { s with srv := { s.srv with time := now } }
+      modifyConn c fun x => { x with txFailed := true }
+      emit c (.err (strBytes Msgs.COMMAND_IN_MULTI_MSG)) : M Unit) s :=
+  processCommand_refused mode c nameB args hclosed hname hus hfind harity (by simpa using hnq)
+    (by simpa using hnm) htx
+
+theorem refused_in_multi (s : Sys) (mode : Mode) (c : Nat) (nameB : Bytes) (args : List Bytes)
+    (n : String) (sig : Sig) (q : List (String × List Bytes))
+    (hclosed : s.srv.closedSockets = [])
+    (hname : commandName nameB = some n) (hus : n.startsWith "_" = false)
+    (hfind : SigTable.find n = some sig) (harity : sig.checkArity args.length = true)
+    (hnq : sig.name ∉ SigTable.notQueued)
+    (hnm : sig.name ∈ SigTable.notInMulti)
+    (htx : (s.conn c).tx = some q) :
+    let s' := (processCommand mode c (nameB :: args) s).2
+    s'.out = (if (s.conn c).closed then s.out
+              else (c, Reply.err (strBytes Msgs.COMMAND_IN_MULTI_MSG)) :: s.out) ∧
+    (s'.conn c).tx = some q ∧ (s'.conn c).txFailed = true ∧
+    s'.srv.dbs = s.srv.dbs ∧ s'.srv.subs = s.srv.subs ∧ s'.srv.psubs = s.srv.psubs := by
+  intro s'
+  have hs' : s' = (s.refresh.updConn c fun x => { x with txFailed := true }).emitS c
+      (.err (strBytes Msgs.COMMAND_IN_MULTI_MSG)) := by
+    show (processCommand mode c (nameB :: args) s).2 = _
+    rw [processCommand_refused_state mode c nameB args hclosed hname hus hfind harity (by simpa using hnq)
+      (by simpa using hnm) htx]
+  have hc : s.refresh.HasConn c := (Sys.refresh_hasConn s c).2 (Sys.hasConn_of_tx (by rw [htx]; rfl))
+  refine ⟨?_, ?_, ?_, ?_, ?_, ?_⟩
+  · rw [hs', Sys.emitS_out, Sys.updConn_out, Sys.refresh_out,
+      Sys.conn_updConn_proj _ c c (fun x => { x with txFailed := true }) Conn.closed
+        (fun _ => rfl) (fun _ => rfl), Sys.refresh_conn]
+  · rw [hs', Sys.emitS_conn,
+      Sys.conn_updConn_same (fun x => { x with txFailed := true }) hc (fun _ => rfl),
+      Sys.refresh_conn]
+    exact htx
+  · rw [hs', Sys.emitS_conn,
+      Sys.conn_updConn_same (fun x => { x with txFailed := true }) hc (fun _ => rfl)]
+  · rw [hs', Sys.emitS_srv, Sys.updConn_dbs, Sys.refresh_dbs]
+  · rw [hs', Sys.emitS_srv, Sys.updConn_subs, Sys.refresh_subs]
+  · rw [hs', Sys.emitS_srv, Sys.updConn_psubs, Sys.refresh_psubs]
+
+example : ∃ (s : Sys) (sig : Sig), s.srv.closedSockets = [] ∧
+    commandName [83, 85, 66, 83, 67, 82, 73, 66, 69] = some "subscribe" ∧
+    ("subscribe".startsWith "_") = false ∧ SigTable.find "subscribe" = some sig ∧ sig.checkArity 1 = true ∧
+    sig.name ∉ SigTable.notQueued ∧ sig.name ∈ SigTable.notInMulti ∧ (s.conn 7).tx = some [] :=
+  ⟨{ srv := { conns := [{ id := 7, tx := some [] }] } }, _, rfl, by simp [commandName, bytesStr, lowerByte],
+    by simp, rfl, by decide, by decide, by decide, rfl⟩
 
 /-! ## 3. EXEC runs the queue sequentially -/
 
